@@ -554,3 +554,37 @@ def clause_g(c: Check):
                      'processed with what the cases before it left behind' % (k.name, ', '.join('self.' + a for a in changed)),
                      f.loc())
     c.floor('C17-g', 'apply methods of the case processors analysed', n_ap, 5)
+    # objects that live as long as the parsed instruction (symbol-dependent values, their validators, the processors)
+    # keep no *unkeyed memo*: `if self.x is None: self.x = f(<argument>)` gives every later call - the next case of
+    # the suite, with its own symbols - what was computed for the first
+    from .purity import unkeyed_memos
+    n_m = 0
+    for name in ix.all_module_names():
+        if not name.startswith(('exactly_lib.type_val_deps', 'exactly_lib.impls.types', 'exactly_lib.impls.svh_validators',
+                                'exactly_lib.impls.instructions', 'exactly_lib.processing', 'exactly_lib.symbol')):
+            continue
+        if 'self.' not in ix.text(name):
+            continue
+        for k in ix.module(name).all_classes:
+            shared = any(mn in k.methods or ix.class_member(k, mn) is not None
+                         for mn in ('resolve', 'validate_pre_sds_if_applicable', 'validate_post_sds_if_applicable',
+                                    'validate_pre_sds', 'symbol_usages', 'references', 'apply'))
+            if not shared:
+                continue
+            for mn, f in k.methods.items():
+                n_m += 1
+                for attr, node in unkeyed_memos(f):
+                    c.bad('C17-g', 'unkeyed-memo/%s.%s/%s' % (k.key, mn, attr),
+                          '%s.%s computes self.%s from its arguments only while it is unset (%s): the value computed '
+                          'for the first case - its symbols, its directories - is given to every later case of the '
+                          'suite' % (k.name, mn, attr, unparse(node)[:60]), '%s:%d' % (k.module.relpath, node.lineno))
+    c.floor('C17-g', 'methods of long-lived objects scanned for unkeyed memos', n_m, 450)
+    import os
+    from ..report import VERIF_ROOT
+    from ..core import Index as _Index
+    fx = _Index(os.path.join(VERIF_ROOT, 'fixtures', 'evaluators'))
+    fm = fx.module('exactly_lib.impls.fixture_memo')
+    got = [x for k in fm.all_classes for f in k.methods.values() for x in unkeyed_memos(f)]
+    want = sum(1 for line in fm.src.splitlines() if '# EXPECT memo' in line)
+    if len(got) != want:
+        raise AnalysisError('C17-g: positive control failed: %d unkeyed memos reported in the fixture, expected %d' % (len(got), want))
